@@ -65,13 +65,14 @@ fn main() {
         }};
     }
     // shapes of one block: number of instructions, and whether the middle one of three is removed afterwards
-    let shapes: [(usize, bool); 4] = [(0, false), (1, false), (2, false), (3, true)];
+    // (instructions, index of the instruction removed afterwards)
+    let shapes: [(usize, Option<usize>); 5] = [(0, None), (1, None), (2, None), (3, Some(1)), (3, Some(0))];
     for nb in 1..=3usize {
         let nshape = shapes.len().pow(nb as u32);
         for sc in 0..nshape {
             for bits in 0u32..(1u32 << (nb * nb)) {
                 // thin out the 3-block space deterministically (1 in 3)
-                if nb == 3 && (sc as u32 * 512 + bits) % 3 != 0 { continue; }
+                if nb == 3 && (sc as u32 * 512 + bits) % 5 != 0 { continue; }
                 let mut cfg = ControlFlowGraph::new();
                 let mut model = Model { blocks: vec![], edges: BTreeSet::new() };
                 let mut s = sc;
@@ -80,14 +81,14 @@ fn main() {
                     let (n, rm) = shapes[s % shapes.len()]; s /= shapes.len();
                     let block = cfg.new_block().unwrap();
                     for _ in 0..n { block.nop(); }
-                    if rm { block.remove_instruction(1).unwrap(); }
+                    if let Some(r) = rm { block.remove_instruction(r).unwrap(); }
                     let mut idx = vec![];
                     for ins in block.instructions_mut() { ins.set_address(Some(addr)); addr += if addr % 3 == 0 { 0 } else { 4 }; addr += 1; idx.push(ins.index()); }
                     model.blocks.push(idx);
                 }
                 for h in 0..nb { for t in 0..nb { if bits & (1 << (h * nb + t)) != 0 { cfg.unconditional_edge(h, t).unwrap(); model.edges.insert((h, t)); } } }
                 cfg.set_entry(0).unwrap();
-                let function = Function::new(0x1000, cfg);
+                let function = Function::new(if (sc + bits as usize) % 2 == 0 { 0x1000 } else { 0x2000 }, cfg);
                 let mut program = Program::new();
                 // a first function holding one instruction whose address also occurs nowhere else
                 let mut cfg0 = ControlFlowGraph::new();
